@@ -1,6 +1,7 @@
 """C19 — lossy parsing changes only precision: who reads `lossy`, and where (DESIGN §4)."""
 from rules.core import (pol_is_variant, guarded, callee_name, path_conditions, op_expr, show, strip_casts, expr_calls, last_seg)
 from rules.syntax import error_sites
+from rules import extra as X
 
 INFO = {
     "explanation": "Options::lossy() is shown to be read only in parse_complete / parse_partial, after the grammar (parse_number / specials) has produced its result and after the exact fast path has returned; from that point no Err can be constructed and no grammar function is called, and the flag only flows into moderate_path (and a debug_assert). Hence accept/reject, consumed counts, errors and fast-path results cannot depend on it.",
@@ -109,3 +110,4 @@ def run(col, configs, tier):
     for name, facts in configs.items():
         col.set_config(name)
         guarded(col, rule_who_lossy, facts)
+        guarded(col, X.rule_lossy_independent_shortcuts, facts)
